@@ -7,7 +7,7 @@ from fractions import Fraction as frac
 if hasattr(sys, "set_int_max_str_digits"):
     sys.set_int_max_str_digits(0)
 
-VAR_REGEX = re.compile(r"[a-zA-Z€$£¥][_a-zA-Z0-9€$£¥]*")
+VAR_REGEX = re.compile(r"[a-zA-Zμ€$£¥][_a-zA-Z0-9μ€$£¥]*")
 
 class Token:
     def __init__(self, tag, begin_index_incl, end_index_excl, **kwargs):
